@@ -47,10 +47,10 @@ def _elem_indices(d, e):
         if not l:
             raise Inadmissible("empty slice")
         return True, l
-    l = e[1]
+    l = [z + d if z < 0 else z for z in e[1]]      # wave 5 (C04-N16): a negative entry counts from the end, as for numpy arrays
     if not l or any(not 0 <= z < d for z in l):
         raise Inadmissible("index list out of range")
-    return True, list(l)
+    return True, l
 
 
 def _cartF(lists):
@@ -367,6 +367,42 @@ def optrig_n15(st, op):
     return any(xs[-1] == 0 and any(x != 0 for x in xs) for xs in seen.values())
 
 
+def _neg_list(key):
+    return key[0] == "region" and any(e[0] == "l" and any(z < 0 for z in e[1]) for e in key[1])
+
+
+def optrig_n16(st, op):
+    """wave 5, C04-N16: a region key (read or write) of a sptensor with a NEGATIVE entry inside an index list, or with an integer
+    below -extent of an existing mode: sptensor does not normalise / range-check it (tensor does, through numpy)"""
+    if op[1][0] != "region":
+        return False
+    shape = st[0]
+    return _neg_list(op[1]) or any(e[0] == "i" and k < len(shape) and e[1] < -shape[k] for k, e in enumerate(op[1][1]))
+
+
+def norm_list_ops(start, ops):
+    """the operations as the Coq model reads them: negative entries of index lists normalised against the extent the mode has when
+    the key is resolved (after growth for a write); the model's KList holds non-negative indices"""
+    st = start_state(start)
+    out = []
+    for op in ops:
+        op2 = op
+        if _neg_list(op[1]):
+            try:
+                shape2 = resolve_set(st[0], op[1], ["scalar", 1])[0] if op[0] == "set" else st[0]
+                es = [["l", [z + shape2[k] if z < 0 else z for z in e[1]]] if e[0] == "l" and k < len(shape2) else e
+                      for k, e in enumerate(op[1][1])]
+                op2 = [op[0], ["region", es]] + list(op[2:])
+            except Inadmissible:
+                pass
+        out.append(op2)
+        try:
+            st, _ = spec_step(st, op)
+        except Inadmissible:
+            pass
+    return out
+
+
 # input classes by finding id.  OPTRIG = the OPEN findings only (used for attribution and kept out of the unattributed streams);
 # FIXED_CLASSES = input classes of repaired defects: generated on purpose (regression streams) and never attributed.
 ALLCLASS = {"C04-N07": ("sparse", optrig_n07), "C04-N05": ("sparse", optrig_n05), "C04-N06": ("sparse", optrig_n06),
@@ -374,8 +410,8 @@ ALLCLASS = {"C04-N07": ("sparse", optrig_n07), "C04-N05": ("sparse", optrig_n05)
             "C04-N01": ("sparse", optrig_n01), "C04-N02": ("sparse", optrig_n02), "A-14": ("sparse", optrig_a14),
             "A-15": ("dense", optrig_a15), "A-16": ("dense", optrig_a16), "A-17": ("dense", optrig_a17),
             "C04-N10": ("sparse", optrig_n10), "C04-N11": ("sparse", optrig_n11), "C04-N12": ("sparse", optrig_n12),
-            "C04-N13": ("sparse", optrig_n13), "C04-N15": ("sparse", optrig_n15)}
-OPEN_IDS = ("A-16", "C04-N04")        # wave 4: C04-N11 / N14 / N15 are repaired in /repo (1fdba16, 8f8b86e, 274a39e): ordinary inputs
+            "C04-N13": ("sparse", optrig_n13), "C04-N15": ("sparse", optrig_n15), "C04-N16": ("sparse", optrig_n16)}
+OPEN_IDS = ("A-16", "C04-N04", "C04-N16")        # wave 4: C04-N11 / N14 / N15 are repaired in /repo (1fdba16, 8f8b86e, 274a39e): ordinary inputs
 OPTRIG = {fid: ALLCLASS[fid] for fid in OPEN_IDS}
 FIXED_CLASSES = {fid: v for fid, v in ALLCLASS.items() if fid not in OPEN_IDS}
 
